@@ -722,6 +722,11 @@ def c07_discrepancies(t, v, share, env, status, routes=None):
                 bad.append(f"{k} returned {o} at a point where the expression is undefined")
             else:
                 bad.append(f"{k} -> {o} at a point where the expression is defined")
+    if want == "dom" and not bad:
+        # asking again at the same (equal, separately built) point must fail again
+        for k, o in routes.run(dict(env)).items():
+            if o[0] != "dom":
+                bad.append(f"{k} raised DomainError on the first query but returned {o} when asked again at the same point")
     return bad, outs
 
 
